@@ -54,6 +54,9 @@ def main():
         target = sid.split('-')[0]
         if a.checks == 'target':
             checks = [target]
+        elif a.checks == 'related':
+            r = sh('%s/tools/related_checks.py %s' % (VERIF, sid))
+            checks = r.stdout.split()[-1].split(',') if r.stdout.split() else [target]
         elif a.checks == 'all':
             checks = ['C%02d' % i for i in range(1, 21)]
         else:
